@@ -302,6 +302,10 @@ pub fn finish(ctx: &Ctx, mut rep: Report) -> i32 {
         ctx.start.elapsed().as_secs_f64(),
         rep.exhaustive
     );
+    if rep.extra.get("generator_parse_failures").and_then(|v| v.as_u64()).unwrap_or(0) > 0 {
+        eprintln!("MACHINERY-FAILURE: the generator produced text that does not parse");
+        return 3;
+    }
     if fresh.is_empty() {
         0
     } else {
